@@ -104,6 +104,15 @@ def histories(design, rng, exhaustive, limit, ok=None):
             if rng.random() < 0.2 and n != top and n in subs:
                 ops.append(["P", [n]])  # again
         hs.append(ops)
+    # lists mixing already-elaborated and new modules
+    for _ in range(6 if exhaustive else 3):
+        if len(subs) >= 1:
+            x = rng.choice(subs)
+            others = [n for n in names if n != x and (n in subs or n == top)]
+            rng.shuffle(others)
+            lst = [x] + others[: rng.randint(1, max(1, len(others)))]
+            rng.shuffle(lst)
+            hs.append(base_build + [[rng.choice("EP"), [x]], ["P", lst]])
     # repeated calls on the top itself
     hs.append(base_build + [["E", [top]], ["P", [top]], ["E", [top]]])
     hs.append(base_build + [["P", [top]], ["N", top]])
@@ -175,6 +184,15 @@ def run(ctx):
         for hst in histories(d, rng, exhaustive=len(d["modules"]) <= 3, limit=per, ok=ok_mods):
             jobs.append({"design": d, "style": c["style"], "ops": hst, "role": "history"})
     results = common.pmap_fresh(run_history, jobs)
+    # fresh single-call baselines for every list exported in some history
+    lists = sorted({(json.dumps(j["design"]) + "|" + j["style"], json.dumps(op[1])) for j in jobs for op in j["ops"] if op[0] == "P" and len(op[1]) > 1})
+    by_key = {json.dumps(c["design"]) + "|" + c["style"]: c for c in cases_d}
+    ljobs = [{"design": by_key[k]["design"], "style": by_key[k]["style"], "role": "baseline_mod",
+              "ops": [["B", x["name"]] for x in by_key[k]["design"]["modules"]] + [["P", json.loads(l)]]} for k, l in lists]
+    base_list = {}
+    for (k, l), r in zip(lists, common.pmap_fresh(run_history, ljobs)):
+        if r.get("pkgs") and "error" not in r:
+            base_list[(k, l)] = r["pkgs"][-1][1]
     nh = 0
     for j, r in zip(jobs, results):
         if j["role"] != "history":
@@ -194,6 +212,10 @@ def run(ctx):
         if not r.get("frozen", True):
             rep.fail("pred", case, {"why": "an elaborated module accepted an addition"})
         for names, dg in r["pkgs"]:
+            if len(names) > 1:
+                want = base_list.get((json.dumps(j["design"]) + "|" + j["style"], json.dumps(names)))
+                if want is not None and dg != want:
+                    rep.fail("pred", case, {"why": f"package of the list {names} exported mid-history differs from its fresh single-call package"})
             if len(names) == 1 and names[0] != j["design"]["top"]:
                 want = base_mod.get((key, names[0]))
                 if want is not None and dg != want:
